@@ -54,7 +54,6 @@ const maxProofDepth = 128 // syncer/proof.go:20
 const (
 	finDepth   = "C12:chunk-of-tree-deeper-than-128-fails-proof-verification"
 	finRestart = "C12:pathbadger-restore-after-aborted-multipart-of-same-version-unreadable"
-	finPeek    = "C12:seq-chunker-swallows-read-error-when-peeking-next-offset"
 )
 
 func chunkDepth(b []byte) int {
@@ -1021,17 +1020,6 @@ func runCase(c Case) (res *result) {
 	nv := len(res.viol)
 	checkChunks(s, cp, c.ChunkSize, c.Threads, res)
 	if res.faultNote != "" && len(res.viol) > nv {
-		// Known defect, exactly this call site: seqChunker.createChunk (chunk.go:117-120) calls
-		// it.Next() to learn the next offset AFTER the proof of a chunk that was closed by its size
-		// and never looks at it.Err(): a failed read there reads as "end of tree".  Signature: the
-		// sequential chunker, the checkpoint is a strict prefix, and its last chunk had reached the
-		// chunk size (a chunk cut short by an error inside the loop has not).
-		if c.Threads == 0 && len(res.ests) > 0 && res.ests[len(res.ests)-1] >= c.ChunkSize {
-			what := fmt.Sprintf("CreateCheckpoint reported %s and returned metadata for a checkpoint that covers only a prefix of the keys (%d chunks, last one closed by its size): %s", res.faultNote, len(cp.chunks), res.viol[nv])
-			res.viol = res.viol[:nv]
-			res.finds = append(res.finds, finding{finPeek, what})
-			return
-		}
 		for i := nv; i < len(res.viol); i++ {
 			res.viol[i] += " [CreateCheckpoint reported " + res.faultNote + "]"
 		}
